@@ -209,6 +209,12 @@ class Search:
             actor = None
             if self.config == "passive":
                 zc.async_add_listener(rec, None)
+            elif self.config in ("twice", "twice-removed"):
+                # the same listener object registered twice (registration is idempotent), then possibly removed once
+                zc.async_add_listener(rec, None)
+                zc.async_add_listener(rec, None)
+                if self.config == "twice-removed":
+                    zc.async_remove_listener(rec)
             else:
                 act, order = self.config.split(":")
                 actor = Rec(zc, "X")
@@ -241,7 +247,11 @@ class Search:
                     if last:
                         if actor is not None:
                             actor.armed = False
-                        self.check_datagram(problems, rec, actor, exp, model, before_objs, zc)
+                        if self.config == "twice-removed":
+                            if rec.calls:
+                                problems.append(f"a listener that was removed is still called: {rec.calls[:2]}")
+                        else:
+                            self.check_datagram(problems, rec, actor, exp, model, before_objs, zc)
                 else:
                     target = w.now_ms + arg
                     while next_purge <= target:
